@@ -63,6 +63,16 @@ mpz_miller_rabin (mpz_srcptr n, int reps, gmp_randstate_t rnd)
   unsigned long int k;
   int is_prime;
   TMP_DECL;
+
+  /* The Fermat test to base 210 = 2*3*5*7 and the random bases 2..n-2 below
+     need n > 7: answer for the small values directly (0 made mpz_powm divide
+     by zero, the primes 2, 3, 5 and 7 were reported composite).  */
+  if (mpz_cmp_ui (n, 10L) <= 0)
+    {
+      mpir_ui nl = (SIZ (n) <= 0 ? 0 : PTR (n)[0]);
+      return nl == 2 || nl == 3 || nl == 5 || nl == 7;
+    }
+
   TMP_MARK;
 
   MPZ_TMP_INIT (nm1, SIZ (n) + 1);
